@@ -19,6 +19,10 @@ def task(item):
     if kind == 'interp': return C07.job_interp(item[1:])
     if kind == 'slice': return C07.job_slice(item[1:])
     if kind == 'ast': return C01.job_ast(item[1:])
+    if kind == 'call':
+        from . import funcjob as FJ
+        _, name, lists, dl, mode = item
+        return FJ.call_job(PROG, name, lists, dl, seed=SEED, mode=mode)
 
 def confirm(c, nd, nr):
     obs = {'dev': nd.request(c['request']), 'release': nr.request(c['request'])}
@@ -44,7 +48,16 @@ def run(run):
     jobs += [('interp', 'index', 3, dl)] + [('interp', ('slice', hs, ht), 3, dl) for hs in (0, 1) for ht in (0, 1)]
     jobs += [('slice', L, hs, ht, True, dl) for L in range(0, 5 if quick else 8) for hs in (0, 1) for ht in (0, 1)]
     jobs += [('ast', k, (), 1, 1 if k == 'Comparison' else 2, dl, 20000 if quick else 10**7, True) for k in SA.COMPOUND]
-    run_jobs(run, jobs, task, 'mirsym: parser on symbolic tokens, Index/Slice arms over the lexer range, slice kernel over all i32, symbolic ASTs')
+    # built-in calls: every function on every combination of type representatives (incl. empty arrays/strings/objects) and on its own value universe
+    from . import funcs as F, funcjob as FJ
+    U = FJ.universes(2)
+    for name in F.NAMES:
+        declared = len(F.SIG[name][0])
+        for n in range(0, declared + 2): jobs.append(('call', name, [FJ.ANY] * min(n, 2) + [FJ.ANY[:3]] * max(0, n - 2), dl, 'table'))
+        lists = U[name]
+        if max(len(l) for l in lists) > 120: lists = [l[::4] if len(l) > 120 else l for l in lists]
+        jobs.append(('call', name, lists, dl, 'values'))
+    run_jobs(run, jobs, task, 'mirsym: parser on symbolic tokens, Index/Slice arms over the lexer range, slice kernel over all i32, symbolic ASTs, built-in calls')
     res = K.run_harnesses(run, ['c07_slice_len2', 'c07_slice_len3', 'c07_negative_index'] + ([] if quick else ['c07_slice_len4', 'c07_slice_len6']), timeout=420 if quick else 2400)
     for r in res:
         for c in r['failed']:
@@ -54,9 +67,10 @@ def run(run):
     run.bounds = {'lexer': 'strings of <= ' + ('2' if quick else '3') + ' arbitrary Unicode scalar values; number tokens of 10-12 symbolic digits around the i32 edge (with/without minus); unterminated and malformed quoted forms with symbolic characters',
                   'parser': f'every token sequence of <= {N} tokens (symbolic numbers over the lexer range); peek/advance past the end included',
                   'evaluator': 'Index over the whole lexer range incl. (-idx) as usize; slices over all i32 (kernel) / the lexer range (interpret arm); every compound node kind over leaf children on symbolic documents',
+                  'built-ins': 'all 26 functions on every combination of 11 type representatives per position (arity 0..declared+1) and on their value universes (empty arrays/strings/objects included)',
                   'kani': 'Variable::slice / get_index / get_negative_index with the real Vec/Rc code for arrays of <= 3 (quick) / 6 (thorough) elements and all i32/usize arguments'}
     run.outside = ['stack exhaustion on deeply nested expressions (e.g. 200000 nested parentheses abort the process): the native stack is not modelled and nesting is bounded by the token count here -- documented in DESIGN.md, not claimed',
-                   'built-in functions are covered by the C02/C06 harnesses', 'documents larger than the bounds']
+                   'documents larger than the bounds']
     run.assumes = ['MIR overflow checks on (as in debug builds); release-profile behaviour is observed in the native replay of every counterexample']
     run.cands = [c for c in run.cands if 'panic' in c['key'] or 'hang' in c['key'] or c['key'].startswith('c05:')]
     for c in run.cands:
